@@ -420,7 +420,9 @@ pub fn generate(rng: &mut Rng, profile: &str, index: u64) -> AHistory {
     let mut slots = *rng.pick(&[0u32, 1, 2, 3, 5, 8, 21, 21, 100]);
     if rng.chance(1, 25) {
         // a second registration overflows the slot counter: "maximum slots reached", nothing may change
-        slots = *rng.pick(&[u32::MAX, 1u32 << 31, u32::MAX - 1]);
+        // (u32::MAX keeps every balance representable: granted totals above u32::MAX wrap - a recorded
+        // finding replayed from corpus/tower - and are kept out of the random histories)
+        slots = *rng.pick(&[u32::MAX, u32::MAX - 1]);
     }
     let duration = *rng.pick(&[0u32, 1, 2, 3, 5, 8, 15, 30, 30, 200]);
     let delta = *rng.pick(&[0u32, 0, 1, 2, 3, 6]);
